@@ -145,6 +145,9 @@ def run_case(ctx, kind_, idx):
                 n = int(rng.choice([2, 3, 5, 10, 100, 500, int(rng.integers(2, 501))]))
                 if kind_ == "huge":
                     n = int(rng.integers(66000, 90002))
+                    if method == "constant" and idx % 12 == 2:
+                        # daily averages expanded to one point per second over two weeks: more than 2**20 new points
+                        n = int(rng.integers(2 ** 20 + 50000, 2 ** 20 + 300000))
                 info["n"] = n
                 n_arg, info["n_type"] = gen.count_arg(rng, n)
                 wv.interpolate(n_arg) if method == "linear" and rng.integers(0, 2) else \
@@ -229,7 +232,8 @@ def run_case(ctx, kind_, idx):
             xl = [float(v) for v in x]
             inside = (new_x >= x[0]) & (new_x <= x[-1])
             # --- data reproduction at samples
-            on = [(j, xl.index(float(q))) for j, q in enumerate(new_x) if float(q) in set(xl)]
+            xset = set(xl)
+            on = [(j, xl.index(float(q))) for j, q in enumerate(new_x) if float(q) in xset]
             if on:
                 ctx.monitor("c13:at_samples")
                 for j, i in on:
